@@ -1586,8 +1586,9 @@ def esc_strings(strings: List[str]) -> Tuple[int, int]:
     return reqs
 
 
-def esc_flush(ctx: C.Ctx, reqs) -> None:
+def esc_flush(ctx: C.Ctx, reqs, shrink: bool = True) -> None:
     outs = ctx.driver.ask([q[0] for q in reqs])
+    shrunk = set()
     for (line, kind, exp, inp), got in zip(reqs, outs):
         ctx.branch(kind + ":" + inp["op"])
         if got == exp:
@@ -1595,6 +1596,16 @@ def esc_flush(ctx: C.Ctx, reqs) -> None:
         if kind == "tie":
             ctx.disagree(inp["op"], inp, exp, got)
         else:
+            key = (inp["pos"], inp["strip_control"])
+            if shrink and len(inp["string"]) > 1 and key not in shrunk:
+                # minimise: a single character of the string that fails the same way
+                shrunk.add(key)
+                small = [q for q in esc_strings(sorted(set(inp["string"])))
+                         if q[1] == "spec" and (q[3]["pos"], q[3]["strip_control"]) == key]
+                for q, g in zip(small, ctx.driver.ask([q[0] for q in small])):
+                    if g != q[2]:
+                        exp, inp, got = q[2], q[3], g
+                        break
             ctx.fail(C.Failure("escaped %s does not read back as the (stripped) string when its references are "
                                "replaced (Lean unescAny)" % inp["pos"],
                                {k: v for k, v in inp.items() if k not in ("op", "pos")}, exp, got,
